@@ -1,6 +1,6 @@
 (* Model_C42.v — executable model of pkgcore.ebuild.pkg_updates.read_updates
    (_scan_directory, read_updates, _process_updates; src/pkgcore/ebuild/pkg_updates.py) in the
-   REPAIRED form of fixes/C42-{1-chronological-order,2-reused-name,3-malformed-atom}.patch.  No proofs here.
+   REPAIRED form (/repo commits 48e78db, 464a8f5, d9e568e = fixes/C42-1..3).  No proofs here.
 
    The aliasing of the deques is modelled faithfully: a heap of deques, a deque being a list of
    items that are either a command or a REFERENCE to another deque (by heap index; object
